@@ -137,6 +137,39 @@ pub const PROPS: &[PropSpec] = &[
         thorough_runs: 24_000,
         rule: "per sampled workload (3-14 sequential operations: append with small / >8KiB / 100KiB frames, both CAS write paths, remove, import, head/time TTL with single collector steps, forced flush, reopen inside the recording) EVERY prefix of the recorded file-operation log is a cut point; per cut a process-kill image plus, where unsynced bytes exist, a power-loss image with all unsynced bytes dropped and 1-2 torn variants; evaluations = workloads, images counted in probes.images; non-trivial = at least one cut fell strictly inside an operation; distinct = distinct workload trace hash",
     },
+    PropSpec {
+        id: "C13",
+        engine: "e4",
+        mix: &[],
+        classes: &["http/", "read/", "get/", "head/", "import/", "append/id-not-increasing", "cas/empty-post-status", "follow/threshold-missing"],
+        nontrivial: &[&["http:append-ok"], &["http:400", "http:404", "http:store-rejected", "http:unknown-route", "http:client-disconnect"], &["http:cat-ndjson", "http:cat-sse", "http:head"]],
+        must_reach: &["http:append-ok", "http:400", "http:404", "http:store-rejected", "http:unknown-route", "http:client-disconnect", "http:fragmented", "http:backpressure", "http:chunked-body", "http:body>8KiB", "http:bodyless-append", "http:cat-ndjson", "http:cat-sse", "http:head", "http:keep-alive", "cas:post", "cas:get", "cas:empty-post", "import:ok", "import:rejected", "follow:tail", "follow:history", "follow:head", "follow:live-frames", "remove:live"],
+        quick_runs: 2400,
+        thorough_runs: 150_000,
+        rule: "request sequences (5-45 requests over every route, valid and invalid ids / contexts / TTLs / option strings / xs-meta payloads / bodies, NDJSON and SSE, follow streams kept open across later requests) sent to the real hyper server over in-memory pipes of 1..65536 bytes, fragmented at seeded offsets, chunked or fixed-length, some cut by a client disconnect; after every request the response and the store are compared with the reference model and with the Store API; non-trivial = a successful append, a rejected/unknown/cut request and a read all happened; distinct = distinct trace hash",
+    },
+    PropSpec {
+        id: "C06",
+        engine: "e4",
+        mix: &[("e4", 2), ("e2", 1), ("e3", 1)],
+        classes: &["ctx/leak", "read/unexpected-scope", "head/wrong-topic"],
+        nontrivial: &[&["http:cat-ndjson", "http:cat-sse", "http:head", "follow:live-frames", "read:sync", "win:live"]],
+        must_reach: &["http:cat-ndjson", "http:head", "follow:head", "follow:tail", "follow:live-frames", "read:sync", "settle", "win:live", "ctx:registered"],
+        quick_runs: 2000,
+        thorough_runs: 200_000,
+        rule: "the same topics are used in every context (zero, registered, numerically adjacent, never registered); context-scoped access paths - Store read_sync/read/head (engine E3), followers racing writers (E2), HTTP GET /?context-id=, GET /head/{topic}?context= and GET /head/{topic}?follow&context= with appends into other contexts while the stream is open (E4) - must never deliver a frame of another context; non-trivial = a context-scoped read or stream delivered something; distinct = distinct trace hash",
+    },
+    PropSpec {
+        id: "C10",
+        engine: "e4",
+        mix: &[("e4", 5), ("e1", 1)],
+        classes: &["cas/", "crash/cas"],
+        nontrivial: &[&["http:append-ok", "cas:post", "image:kill"]],
+        must_reach: &["http:append-ok", "http:chunked-body", "http:body>8KiB", "http:bodyless-append", "http:client-disconnect", "cas:post", "cas:get", "cas:empty-post", "cas:get-unknown", "image:kill", "cas:sized", "cas:stream"],
+        quick_runs: 1800,
+        thorough_runs: 120_000,
+        rule: "byte strings (empty, 1 byte, non-UTF-8, 8191/8192/8193 bytes, 100 KB) written through POST /{topic} (fixed-length and chunked bodies split over many transport writes, some cut by a disconnect) and POST /cas, read back through GET /cas and the Store; a monitor inside append checks at the instant a frame with a hash becomes observable that its content is already retrievable; one run in six is an E1 crash-image workload (content of every visible frame after a process kill); non-trivial = content was written; distinct = distinct trace hash",
+    },
 ];
 
 pub fn spec(prop: &str) -> Option<&'static PropSpec> {
@@ -183,6 +216,7 @@ fn gen_plan_inner(spec: &PropSpec, engine: &str, thorough: bool, seed: u64) -> V
             serde_json::to_value(crate::e3::generate(seed, &cfg)).unwrap()
         }
         "e1" => serde_json::to_value(crate::e1::generate(seed, spec.id, thorough)).unwrap(),
+        "e4" => serde_json::to_value(crate::e4::generate(seed, spec.id, thorough)).unwrap(),
         "e2" => serde_json::to_value(crate::e2::generate(seed, spec.id, thorough)).unwrap(),
         _ => Value::Null,
     }
@@ -193,6 +227,7 @@ pub fn exec_plan(engine: &str, plan: &Value, tag: &str) -> RunResult {
     match engine {
         "e3" => crate::e3::exec_value(plan, tag),
         "e1" => crate::e1::exec_value(plan, tag),
+        "e4" => crate::e4::exec_value(plan, tag),
         "e2" => {
             let (mut r, choices) = crate::e2::exec_value(plan, tag);
             r.choices = choices;
